@@ -344,7 +344,8 @@ def match_wildcard(name: Optional[str], wildcard: str) -> bool:
 
 def escape_json_string(s: str, escaped: bool = False) -> str:
     if escaped:
-        s = s.replace('\\"', '"')
+        # the escapes of the characters that are escaped again below
+        s = s.replace('\\"', '"').replace('\\/', '/')
     else:
         s = s.replace('\\', '\\\\')
 
